@@ -4,6 +4,7 @@ mod proj;
 mod parse_ev;
 mod gen;
 mod rt_ev;
+mod api_ev;
 
 use std::collections::HashMap;
 
@@ -52,6 +53,11 @@ fn real_main() {
         "gen-mutants" => gen::gen_mutants(&args),
         "parse-events" => parse_ev::parse_events(&args),
         "roundtrip-events" => rt_ev::roundtrip_events(&args),
+        "value-events" => api_ev::value_events(&args),
+        "dt-events" => api_ev::dt_events(&args),
+        "num-events" => api_ev::num_events(&args),
+        "quote-events" => api_ev::quote_events(&args),
+        "serdeint-events" => api_ev::serdeint_events(&args),
         _ => {
             eprintln!("unknown command {cmd:?}");
             std::process::exit(2);
